@@ -20,8 +20,9 @@ const cpumemTypes = "resource/plugins/cpumem/types"
 // usageFields: the usage-relevant fields per bookkeeping type, confirmed by reading calculateNodeResource (which builds
 // NodeResource{CPU, CPUMap, Memory, NUMAMemory} from WorkloadResource{CPURequest, CPUMap, MemoryRequest, NUMAMemory}).
 // "" stands for the map receiver itself. One line of reason per omission:
-//   WorkloadResource.CPULimit/MemoryLimit/NUMANode: engine limits and placement, not node usage
-//   NodeResource.NUMA: topology (cpu -> numa node), replaced not summed
+//
+//	WorkloadResource.CPULimit/MemoryLimit/NUMANode: engine limits and placement, not node usage
+//	NodeResource.NUMA: topology (cpu -> numa node), replaced not summed
 var usageFields = map[string][]string{
 	"WorkloadResource": {"CPURequest", "MemoryRequest", "CPUMap", "NUMAMemory"},
 	"NodeResource":     {"CPU", "Memory", "CPUMap", "NUMAMemory"},
